@@ -83,7 +83,12 @@ def exec_retrieve_big(job):
 def exec_nav(job):
     import bct
     L = rc.as_variant(np.array(job["L"], dtype=float), job.get("dtype", "float64"), job.get("layout", "C"))
-    Dm = rc.as_variant(np.array(job["Dm"], dtype=float), job.get("dm_dtype", "float64"), job.get("dm_layout", "C"))
+    Dmf = np.array(job["Dm"], dtype=float)
+    if (Dmf >= encode.INF).any():          # the job writes inf as encode.INF (the record keeps that)
+        Dmf[Dmf >= encode.INF] = np.inf
+        Dm = rc.as_variant(Dmf, "float64", job.get("dm_layout", "C"))
+    else:
+        Dm = rc.as_variant(Dmf, job.get("dm_dtype", "float64"), job.get("dm_layout", "C"))
     n = len(L)
     rec = dict(fn="navigation_wu", kind="nav", n=n, L=job["L"], Dm=job["Dm"], maxh=job["maxh"],
                raised="", malformed="", sr=-1, PLb=[], PLw=[], PLd=[], paths=[])
@@ -232,6 +237,10 @@ def build_jobs(ctx):
             for _ in range(reps):
                 L = len_matrix(rng, n, edges, kind == "und")
                 Dm = sym_dist(rng, n, [1, 2, 3]) if rng.random() < 0.6 else grid_dist(rng, n)
+                if rng.random() < 0.12:      # "all nodal distance matrices": some pairs infinitely far apart
+                    for _x in range(rng.randint(1, 3)):
+                        a, b = rng.sample(range(n), 2)
+                        Dm[a][b] = Dm[b][a] = encode.INF
                 jobs.append(nav_job(L, Dm, rng.choice([0, 1, 2, n, 2 * n]), "model"))
     for j in inputs.sample(rng, [j for j in jobs if j["kind"] == "nav"], 120 if q else 2000):
         jobs.append(nav_variant(rng, j["L"], j["Dm"], j["maxh"], "model-variant", p_plain=0.0))
